@@ -200,6 +200,74 @@ func checkThenInsert(c *Ctx, le *LockEngine, rule string, fns []*ssa.Function, T
 					}
 				}
 			}
+			// the helper inserts a node under node.Name(): at each call site a miss of a key that is that
+			// node's name (k = n.Name(), or n = NewDir/NewFile(k, ...)) must have been seen under the hold
+			if !found && f.Object() != nil && !f.Object().Exported() {
+				if nc, isCall := resolve(mu.Key).(*ssa.Call); isCall && nc.Call.IsInvoke() && nc.Call.Method.Name() == "Name" {
+					if np, isParam := nc.Call.Value.(*ssa.Parameter); isParam {
+						if le.sites == nil {
+							le.buildCallIndex()
+						}
+						sites := le.sites[f]
+						all := len(sites) > 0 && !le.escapes[f]
+						for _, sct := range sites {
+							if sct.ci.Kind != "call" {
+								all = false
+								continue
+							}
+							var nodeArg, baseArg ssa.Value
+							for pi, p := range f.Params {
+								if pi < len(sct.ci.Common.Args) {
+									if p == np {
+										nodeArg = sct.ci.Common.Args[pi]
+									}
+									if keyP(base) == "param:"+p.Name() {
+										baseArg = sct.ci.Common.Args[pi]
+									}
+								}
+							}
+							if nodeArg == nil || baseArg == nil {
+								all = false
+								continue
+							}
+							ckey := fmt.Sprintf("%s.&f%d", keyP(baseArg), gi)
+							okSite := false
+							eachInstr(sct.caller, func(_ *ssa.BasicBlock, _ int, in2 ssa.Instruction) {
+								lk, isLk := in2.(*ssa.Lookup)
+								if !isLk || !lk.CommaOk || okSite {
+									return
+								}
+								// is the looked-up key the node's name?
+								related := false
+								if kc, isKC := resolve(lk.Index).(*ssa.Call); isKC && kc.Call.IsInvoke() && kc.Call.Method.Name() == "Name" && unwrapIface(resolve(kc.Call.Value)) == unwrapIface(resolve(nodeArg)) {
+									related = true
+								}
+								if ctor, isCtor := unwrapIface(resolve(nodeArg)).(*ssa.Call); isCtor && len(ctor.Call.Args) > 0 && sameValue(resolve(ctor.Call.Args[0]), resolve(lk.Index)) {
+									related = true
+								}
+								if mi, isMI := resolve(nodeArg).(*ssa.MakeInterface); isMI {
+									if ctor, isCtor := resolve(mi.X).(*ssa.Call); isCtor && len(ctor.Call.Args) > 0 && sameValue(resolve(ctor.Call.Args[0]), resolve(lk.Index)) {
+										related = true
+									}
+								}
+								if !related {
+									return
+								}
+								if ok2, _ := missEvidence(le, sct.caller, st, fi, ckey, keyP(baseArg), lk.Index, sct.ci.Instr); ok2 {
+									okSite = true
+								}
+							})
+							if !okSite {
+								all = false
+								why = "no miss of the node's own name is established under the write lock at the call in " + fname(sct.caller)
+							}
+						}
+						if all {
+							found = true
+						}
+					}
+				}
+			}
 			c.Check(found, rule, con, mu.Pos(),
 				"miss of the same key observed under the same hold of "+key+" dominates the insert",
 				why+" — two concurrent creators can both insert (duplicate or lost node)")
